@@ -93,6 +93,21 @@ class Analysis:
                 if (r2, p2[: len(p)]) != (r, p):  # storing a part of an object into itself adds no new alias class
                     self.leaks.append((r, p, r2, p2, node.lineno))
 
+    def fresh(self, node, comps):
+        """a new container (literal, comprehension, constructor call) holding the given values"""
+        refs = set()
+        for c in comps:
+            if isinstance(c, tuple):
+                for x in c:
+                    refs |= x
+            else:
+                refs |= c.flat() if isinstance(c, Coll) else c
+        if not refs:
+            return frozenset()
+        root = f"N:{node.lineno}"
+        self.leak({(root, ())}, refs, node)
+        return frozenset({(root, ())})
+
     def mutate(self, refs, op, key, node):
         for r, p in sorted(refs):
             self.muts.append((r, p, op, key, node.lineno))
@@ -138,13 +153,11 @@ class Analysis:
                 for c in g.ifs:
                     self.ev(c, env2)
             if isinstance(n, ast.DictComp):
-                self.ev(n.key, env2)
-                self.ev(n.value, env2)
-                return E  # a fresh dict (its values may alias, but it is a fresh top level)
+                return self.fresh(n, [self.ev(n.key, env2), self.ev(n.value, env2)])
             v = self.ev(n.elt, env2)
-            if isinstance(v, Coll):
-                return Coll(nested=[v])
-            return Coll(elems=v) if isinstance(n, ast.GeneratorExp) else E
+            if isinstance(n, ast.GeneratorExp):
+                return Coll(nested=[v]) if isinstance(v, Coll) else Coll(elems=v)
+            return self.fresh(n, [v])
         if isinstance(n, (ast.BoolOp,)):
             out = set()
             for v in n.values:
@@ -175,14 +188,9 @@ class Analysis:
                     self.ev(v.value, env)
             return E
         if isinstance(n, (ast.Tuple, ast.List, ast.Set)):
-            for e in n.elts:
-                self.ev(e.value if isinstance(e, ast.Starred) else e, env)
-            return E
+            return self.fresh(n, [self.ev(e.value if isinstance(e, ast.Starred) else e, env) for e in n.elts])
         if isinstance(n, ast.Dict):
-            for k, v in zip(n.keys, n.values):
-                self.ev(k, env)
-                self.ev(v, env)
-            return E
+            return self.fresh(n, [self.ev(k, env) for k in n.keys if k is not None] + [self.ev(v, env) for v in n.values])
         if isinstance(n, ast.Starred):
             return self.ev(n.value, env)
         if isinstance(n, ast.Lambda):
@@ -222,19 +230,16 @@ class Analysis:
             self.delegate = f.split(".")[1]
             return E
         if f in PURE_FUNCS:
-            out = []
-            for a in args:
-                v = self.ev(a, env)
-                if isinstance(v, Coll):
-                    out.append(v)
             if f == "itertools.chain":
                 nested = []
                 for a in n.args:
                     v = self.ev(a.value if isinstance(a, ast.Starred) else a, env)
                     if isinstance(v, Coll):
                         nested.append(v if not isinstance(a, ast.Starred) else Coll(nested=v.nested, elems=()))
+                    elif v:
+                        raise Unrecognised(f"line {n.lineno}: itertools.chain over a tracked non-iterable")
                 return Coll(nested=nested)
-            return E
+            return self.fresh(n, [self.ev(a, env) for a in args])
         # method calls
         if isinstance(n.func, ast.Attribute):
             meth = n.func.attr
